@@ -164,6 +164,32 @@ func gRawDecrypt(raw []byte, s []byte, sk int, reuse bool) ([]byte, error) {
 	return cryptz.SaltBySecretCBCDecrypt(c, s, reuse)
 }
 
+// preserved checks a decryption entry point that promises not to reuse the caller's buffer:
+// decrypt twice from the same slice, compare the slice with a saved copy, then overwrite it and
+// look at the result again. "" = fine.
+func preserved(msg, want []byte, dec func([]byte) ([]byte, error)) string {
+	m := append([]byte(nil), msg...)
+	var got []byte
+	var err error
+	if _, _, p := common.Catch(func() { got, err = dec(m) }); p || err != nil || !bytes.Equal(got, want) {
+		return "" // reported by the round-trip check
+	}
+	if !bytes.Equal(m, msg) {
+		return "input-modified"
+	}
+	var got2 []byte
+	if _, _, p := common.Catch(func() { got2, err = dec(m) }); p || err != nil || !bytes.Equal(got2, want) {
+		return "second-decrypt-of-the-same-message-fails"
+	}
+	for i := range m {
+		m[i] ^= 0xFF
+	}
+	if !bytes.Equal(got, want) || !bytes.Equal(got2, want) {
+		return "result-aliases-input"
+	}
+	return ""
+}
+
 // plaintext / message kind follows the secret kind, the AAD kind is independent
 func gGCMEncrypt(p, s []byte, sk int, a []byte, ak int) ([]byte, error) {
 	switch sk*2 + ak {
@@ -337,6 +363,12 @@ func cbcMessages(r *common.Run, a *agg, si int) {
 							l.report("SaltBySecretCBCDecrypt|fails-on-valid-message", rank, fmt.Sprintf("returned %s, %v; want %s", hx(got), err, hx(p)), c2, "")
 						}
 					}
+					// reuseCipherText=false: the caller's message must survive the call (it may be decrypted
+					// again, or with another secret first) and the result must not share its memory
+					if why := preserved(want, p, func(m []byte) ([]byte, error) { return cryptz.SaltBySecretCBCDecrypt(m, s, false) }); why != "" {
+						ev++
+						l.report("SaltBySecretCBCDecrypt|"+why+"|reuse=false", rank, "with reuseCipherText=false: "+why, map[string]any{"envelope": hx(want), "secret": string(s), "plaintext": hx(p)}, "")
+					}
 				}
 			}
 		}
@@ -467,6 +499,9 @@ func gcmMessages(r *common.Run, a *agg, si int) {
 									if st != "" || err != nil || !bytes.Equal(got, p) {
 										l.report("SaltBySecretGCMDecrypt(Encrypt)|round-trip", rank, fmt.Sprintf("got %s err=%v panic=%v, want %s", hx(got), err, st != "", hx(p)), map[string]any{"case": c, "reuse": reuse, "stack": st}, "")
 									}
+								}
+								if why := preserved(raw, p, func(m []byte) ([]byte, error) { return cryptz.SaltBySecretGCMDecrypt(m, s, ad, false) }); why != "" {
+									l.report("SaltBySecretGCMDecrypt|"+why+"|reuse=false", rank, "with reuseCipherText=false: "+why, map[string]any{"case": c}, "")
 								}
 							}
 							if sk != 0 {
